@@ -32,7 +32,8 @@ INTERLEAVING_MEASURE = "distinct op-kind sequences (history shapes)"
 PROBES = ["second_cost_call", "third_cost_call", "crossing_before_repeat", "cross_pickle",
           "cross_cloudpickle", "cross_deepcopy", "cross_model_copy", "cross_memmap_disk",
           "cross_clear_models", "evaluate_before_repeat", "model_fault_fired", "model_fault_raised",
-          "partial_flags_call", "fake_model_components", "expression_values", "nonunit_scale_histories"]
+          "partial_flags_call", "fake_model_components", "expression_values", "nonunit_scale_histories",
+          "evaluate_full", "evaluate_mapper_pre", "evaluate_mapper_post"]
 REAL_VS_STUB = {
     "real": ["Spec.from_yaml / _spec_eval_expressions / calculate_component_costs",
              "Component.calculate_area/leak_power/action_energy/action_throughput",
@@ -155,13 +156,14 @@ def _diff(kind, snap, now):
 
 
 class Handle:
-    __slots__ = ("spec", "snap", "n_cost", "crossed")
+    __slots__ = ("spec", "snap", "n_cost", "crossed", "only")
 
-    def __init__(self, spec, snap, n_cost, crossed):
+    def __init__(self, spec, snap, n_cost, crossed, only=None):
         self.spec = spec
         self.snap = snap  # kind -> snapshot at first computation on this chain
         self.n_cost = n_cost
         self.crossed = crossed  # crossings since last cost call
+        self.only = only  # after _for_einsum: the one Einsum left in the workload
 
 
 class Interp:
@@ -214,6 +216,8 @@ class Interp:
     def _cost(self, hi, einsum, flags):
         fm = _S["fm"]
         h = self._h(hi)
+        if h.only is not None:
+            einsum = h.only
         flags = {k: bool(v) for k, v in zip(KINDS, flags)}
         before = observe(h.spec)
         fired0 = fm.FAIL["fired"]
@@ -270,7 +274,7 @@ class Interp:
             if k not in snap:
                 snap[k] = now[k]
         if r is not h.spec or requested:
-            self.handles.append(Handle(r, snap, h.n_cost + (1 if requested else 0), []))
+            self.handles.append(Handle(r, snap, h.n_cost + (1 if requested else 0), [], h.only))
         return None
 
     def _cross(self, hi, how):
@@ -294,12 +298,34 @@ class Interp:
         else:
             raise ValueError(how)
         self._bump("cross_" + how)
-        self.handles.append(Handle(r, dict(h.snap), h.n_cost, h.crossed + [how]))
+        self.handles.append(Handle(r, dict(h.snap), h.n_cost, h.crossed + [how], h.only))
 
-    def _evaluate(self, hi, einsum):
+    def _evaluate(self, hi, einsum, how="full"):
+        """Re-evaluation the way the mapper does it between a user's cost call and its own.
+        full        : spec._spec_eval_expressions(einsum_name=e)
+        mapper_pre  : make_pmappings + get_jobs: non-arch evaluation, then arch evaluation for e
+        mapper_post : get_jobs after costing: _for_einsum(e)._clear_component_models(), through
+                      _memmap_read (disk)"""
         h = self._h(hi)
-        r = h.spec._spec_eval_expressions(einsum_name=einsum)
-        self.handles.append(Handle(r, dict(h.snap), h.n_cost, h.crossed + ["evaluate"]))
+        if h.only is not None:
+            einsum = h.only
+        only = h.only
+        if how == "full":
+            r = h.spec._spec_eval_expressions(einsum_name=einsum)
+        elif how == "mapper_pre":
+            e = einsum or "E0"
+            r = h.spec._spec_eval_expressions(eval_arch=False, eval_non_arch=True)
+            r = r._spec_eval_expressions(einsum_name=e, eval_arch=True, eval_non_arch=False)
+        elif how == "mapper_post":
+            if not getattr(h.spec, "_evaluated", False):
+                return
+            e = einsum or "E1"
+            r = _S["memmap"](h.spec._for_einsum(e)._clear_component_models())
+            only = e
+        else:
+            raise ValueError(how)
+        self._bump("evaluate_" + how)
+        self.handles.append(Handle(r, dict(h.snap), h.n_cost, h.crossed + ["evaluate"], only))
 
 
 def run_history(params, ops, workdir):
@@ -401,9 +427,9 @@ def _make_machine(workdir, agg):
         def cross(self, h, how):
             self._do(["cross", h, how])
 
-        @rule(h=hidx, e=einsum_st)
-        def evaluate(self, h, e):
-            self._do(["evaluate", h, e])
+        @rule(h=hidx, e=einsum_st, how=st.sampled_from(["full", "mapper_pre", "mapper_pre", "mapper_post"]))
+        def evaluate(self, h, e, how):
+            self._do(["evaluate", h, e, how])
 
         @rule()
         def fail_next(self):
